@@ -102,64 +102,55 @@ Ltac nm_peel :=
   end.
 Ltac ne_frame N := eapply NE_frame; [|exact N]; nm_peel.
 
-(* pc / prog / err updates of the stepping thread *)
-Lemma NE_set_pc s t p : NE s -> ~ intr_pc p -> (forall c l, p <> PWaitSlept c l) -> NE (set_pc s t p).
+(* pc / prog / err updates of the stepping thread t: NEx = NE without the error-number clause for t *)
+Definition NEx (s : state) (t : tid) : Prop :=
+  (forall y o, In o (prog (th s y)) -> ~ intr_op o) /\ (forall y, ~ intr_pc (tpc (th s y))) /\
+  (forall y c l n, y <> t -> tpc (th s y) = PWaitSlept c l -> wk (th s y) = WNotified n -> err (th s y) = -1).
+Lemma NE_NEx s t : NE s -> NEx s t.
+Proof. intros N. split; [apply (ne_prog s N)|split; [apply (ne_pc s N)|]]. intros y c l n _. apply (ne_err s N). Qed.
+Lemma NEx_frame s s' t : ne_mono s s' -> NEx s t -> NEx s' t.
 Proof.
-  intros N Hp Hw. unfold set_pc. constructor.
-  - intros y o H. rewrite th_updT in H. destruct (Nat.eqb_spec y t); subst; simpl in H; eapply (ne_prog s N); eauto.
-  - intros y. rewrite th_updT. destruct (Nat.eqb_spec y t); subst; simpl; auto. apply (ne_pc s N).
+  intros M (A & B & C). split; [|split].
+  - intros y o H. destruct (M y) as (E & _). rewrite E in H. eauto.
+  - intros y. destruct (M y) as (_ & E & _). rewrite E. auto.
+  - intros y c l n Hy H1 H2. destruct (M y) as (_ & E1 & E2 & E3). rewrite E1 in H1. rewrite E2. eauto.
+Qed.
+Lemma NEx_set_err s t e : NEx s t -> NEx (updT s t (fun x => t_err x e)) t.
+Proof.
+  intros (A & B & C). split; [|split].
+  - intros y o H. rewrite th_updT in H. destruct (Nat.eqb_spec y t); subst; simpl in H; eauto.
+  - intros y. rewrite th_updT. destruct (Nat.eqb_spec y t); subst; simpl; auto.
+  - intros y c l n Hy H1 H2. rewrite th_updT in *. destruct (Nat.eqb_spec y t); subst; [congruence|]. eauto.
+Qed.
+Lemma NEx_set_pc s t p : NEx s t -> ~ intr_pc p -> (forall c l, p <> PWaitSlept c l) -> NE (set_pc s t p).
+Proof.
+  intros (A & B & C) Hp Hw. unfold set_pc. constructor.
+  - intros y o H. rewrite th_updT in H. destruct (Nat.eqb_spec y t); subst; simpl in H; eauto.
+  - intros y. rewrite th_updT. destruct (Nat.eqb_spec y t); subst; simpl; auto.
   - intros y c l n H1 H2. rewrite th_updT in *. destruct (Nat.eqb_spec y t); subst; simpl in *.
     + exfalso. eapply Hw; eauto.
-    + eapply (ne_err s N); eauto.
+    + eauto.
 Qed.
-Lemma NE_finish s t a b : NE s -> NE (finish_op s t a b).
+Lemma NEx_finish s t a b : NEx s t -> NE (finish_op s t a b).
 Proof.
-  intros N. unfold finish_op. constructor.
+  intros (A & B & C). unfold finish_op. constructor.
   - intros y o H. rewrite th_updT in H. destruct (Nat.eqb_spec y t); subst; simpl in H.
-    + eapply (ne_prog s N t). destruct (prog (th s t)); simpl in *; auto.
-    + eapply (ne_prog s N); eauto.
-  - intros y. rewrite th_updT. destruct (Nat.eqb_spec y t); subst; simpl; auto. apply (ne_pc s N).
-  - intros y c l n H1 H2. rewrite th_updT in *. destruct (Nat.eqb_spec y t); subst; simpl in *; [discriminate|].
-    eapply (ne_err s N); eauto.
+    + apply (A t). destruct (prog (th s t)); simpl in *; auto.
+    + eauto.
+  - intros y. rewrite th_updT. destruct (Nat.eqb_spec y t); subst; simpl; auto.
+  - intros y c l n H1 H2. rewrite th_updT in *. destruct (Nat.eqb_spec y t); subst; simpl in *; [discriminate|]. eauto.
 Qed.
-(* error_number of the stepping thread t is rewritten while its pc is not PWaitSlept, or together with a pc change *)
-Lemma NE_set_err_pc s t e p : NE s -> ~ intr_pc p -> (forall c l, p <> PWaitSlept c l) ->
-  NE (set_pc (updT s t (fun x => t_err x e)) t p).
-Proof.
-  intros N Hp Hw. unfold set_pc. constructor.
-  - intros y o H. rewrite !th_updT in H. destruct (Nat.eqb_spec y t); subst; simpl in H; [rewrite Nat.eqb_refl in H; simpl in H|]; eapply (ne_prog s N); eauto.
-  - intros y. rewrite !th_updT. destruct (Nat.eqb_spec y t); subst; simpl; auto. apply (ne_pc s N).
-  - intros y c l n H1 H2. rewrite !th_updT in *. destruct (Nat.eqb_spec y t); subst; simpl in *.
-    + exfalso. eapply Hw; eauto.
-    + eapply (ne_err s N); eauto.
-Qed.
-Lemma NEx_take_err s t a b s1 : NE s -> take_err s t = (a, b, s1) ->
-  (forall p, ~ intr_pc p -> (forall c l, p <> PWaitSlept c l) -> NE (set_pc s1 t p)) /\
-  (forall x y, NE (finish_op s1 t x y)).
+Lemma NE_set_pc s t p : NE s -> ~ intr_pc p -> (forall c l, p <> PWaitSlept c l) -> NE (set_pc s t p).
+Proof. intros N. apply NEx_set_pc. now apply NE_NEx. Qed.
+Lemma NE_finish s t a b : NE s -> NE (finish_op s t a b).
+Proof. intros N. apply NEx_finish. now apply NE_NEx. Qed.
+Lemma NEx_take_err s t a b s1 : NE s -> take_err s t = (a, b, s1) -> NEx s1 t.
 Proof.
   intros N H. unfold take_err in H. destruct (err (th s t) =? 0); inversion H; subst.
-  - split; intros; [apply NE_set_pc|apply NE_finish]; auto.
-  - split.
-    + intros p Hp Hw. now apply NE_set_err_pc.
-    + intros x y. assert (X : NE (set_pc (updT s t (fun x => t_err x 0)) t PIdle)) by (apply NE_set_err_pc; auto; discriminate).
-      constructor.
-      * intros z o Hz. unfold finish_op in Hz. rewrite !th_updT in Hz. destruct (Nat.eqb_spec z t); subst; simpl in Hz.
-        -- try (rewrite Nat.eqb_refl in Hz; simpl in Hz). Show. eapply (ne_prog s N t). destruct (prog (th s t)); simpl in *; auto.
-        -- eapply (ne_prog s N); eauto.
-      * intros z. unfold finish_op. rewrite !th_updT. destruct (Nat.eqb_spec z t); subst; simpl; auto. apply (ne_pc s N).
-      * intros z c l n H1 H2. unfold finish_op in *. rewrite !th_updT in *. destruct (Nat.eqb_spec z t); subst; simpl in *; [discriminate|].
-        eapply (ne_err s N); eauto.
+  - now apply NE_NEx.
+  - apply NEx_set_err. now apply NE_NEx.
 Qed.
 
-Lemma NE_set_err_cur s t e : NE s -> (forall c l, tpc (th s t) <> PWaitSlept c l) -> NE (updT s t (fun x => t_err x e)).
-Proof.
-  intros N Hw. constructor.
-  - intros y o H. rewrite th_updT in H. destruct (Nat.eqb_spec y t); subst; simpl in H; eapply (ne_prog s N); eauto.
-  - intros y. rewrite th_updT. destruct (Nat.eqb_spec y t); subst; simpl; apply (ne_pc s N).
-  - intros y c l n H1 H2. rewrite th_updT in *. destruct (Nat.eqb_spec y t); subst; simpl in *.
-    + exfalso. eapply Hw; eauto.
-    + eapply (ne_err s N); eauto.
-Qed.
 Lemma NE_set_woken s x w : NE s -> NE (updT s x (fun y => t_wk (t_err y (-1)) w)).
 Proof.
   intros N. constructor.
@@ -195,10 +186,10 @@ Proof.
     apply NE_set_pc; [ne_frame N|auto|discriminate].
   - inversion H; subst. apply NE_lock_done. ne_frame N.
 Qed.
-Lemma NE_yield s v t p : NE s -> (forall c l, tpc (th s t) <> PWaitSlept c l) -> ~ intr_pc p -> (forall c l, p <> PWaitSlept c l) ->
+Lemma NE_yield s v t p : NE s -> ~ intr_pc p -> (forall c l, p <> PWaitSlept c l) ->
   NE (set_pc (rotate (updT s t (fun x => t_err x 0)) v) t p).
 Proof.
-  intros N Hc Hp Hw. apply NE_set_pc; auto. eapply NE_frame; [apply nm_rotate|]. now apply NE_set_err_cur.
+  intros N Hp Hw. apply NEx_set_pc; auto. eapply NEx_frame; [apply nm_rotate|]. apply NEx_set_err. now apply NE_NEx.
 Qed.
 Lemma NE_notify_read s t c all n : NE s -> NE (notify_read s t c all n).
 Proof.
@@ -237,4 +228,98 @@ Proof.
   - inversion H; subst. now apply NE_notify_read.
   - inversion H; subst. now apply NE_notify_read.
   - inversion H; subst. now apply NE_finish.
+Qed.
+
+Lemma NE_thread_step s v t s' : NE s -> thread_step s v t = Some s' -> NE s'.
+Proof.
+  intros N H. unfold thread_step in H. pose proof (ne_pc s N t) as Np.
+  destruct (tpc (th s t)) eqn:P; try (exfalso; exact (Np I)).
+  - destruct (prog (th s t)) as [|o os] eqn:Pr; [|eapply NE_op_step; eauto].
+    destruct (lk (th s t)); [discriminate|]. destruct (Nat.ltb t (nvc s)); inversion H; subst.
+    + apply NE_set_pc; [ne_frame N|auto|discriminate].
+    + ne_frame N.
+  - destruct as_sleep; [destruct (err (th s t) =? 0)|]; inversion H; subst; now apply NE_finish.
+  - destruct (take_err s t) as [[a b] s1] eqn:T. inversion H; subst. apply NEx_finish. eapply NEx_take_err; eauto.
+  - destruct (lk (th s t)); [discriminate|]. destruct (take_err s t) as [[a b] s1] eqn:T. inversion H; subst.
+    apply NEx_set_pc; [|auto|discriminate]. eapply NEx_frame; [apply nm_prepare|]. eapply NEx_take_err; eauto.
+  - destruct (take_err s t) as [[a b] s1] eqn:T. inversion H; subst.
+    apply NEx_set_pc; [eapply NEx_take_err; eauto|auto|discriminate].
+  - eapply NE_lock_try; eauto.
+  - destruct (take_err s t) as [[a b] s1] eqn:T. pose proof (NEx_take_err _ _ _ _ _ N T) as N1.
+    assert (LD : forall r0 e0, NE (lock_done s1 t l k r0 e0)).
+    { intros r0 e0. unfold lock_done. destruct k.
+      - destruct (r0 =? 0); apply NEx_finish; auto. eapply NEx_frame; [apply nm_set_held|exact N1].
+      - destruct (r0 =? 0).
+        + destruct (translate ret en). apply NEx_finish. eapply NEx_frame; [apply nm_set_held|exact N1].
+        + apply NEx_set_pc; auto. discriminate. }
+    destruct ((a <? 0) && (b =? -1)).
+    + destruct (lown s1 l) as [o|]; [destruct (Nat.eqb o t)|]; inversion H; subst; auto;
+        (apply NEx_set_pc; [exact N1|auto|discriminate]).
+    + destruct (translate a b). inversion H; subst. auto.
+  - destruct (sat_add (now s) 1000 <=? now s).
+    + inversion H; subst. apply NE_yield; auto. discriminate.
+    + destruct (lk (th s t)); [discriminate|]. inversion H; subst. apply NE_set_pc; [ne_frame N|auto|discriminate].
+  - destruct (take_err s t) as [[a b] s1] eqn:T. inversion H; subst.
+    apply NEx_set_pc; [eapply NEx_take_err; eauto|auto|discriminate].
+  - inversion H; subst. now apply NE_notify_read.
+  - destruct (lk (th s x)); [discriminate|]. inversion H; subst. apply NE_set_pc; [ne_frame N|auto|discriminate].
+  - destruct (wqs s (WCv c)) as [|h q]; [|destruct (Nat.eqb h x)]; inversion H; subst; (apply NE_set_pc; [auto|auto|discriminate]).
+  - inversion H; subst. apply NE_set_pc; [ne_frame N|auto|discriminate].
+  - destruct (tstate_eqb (st (th s x)) SLEEPING); inversion H; subst; (apply NE_set_pc; [|auto|discriminate]).
+    + eapply NE_frame; [apply nm_wake_by|]. now apply NE_set_woken.
+    + ne_frame N.
+  - destruct all; inversion H; subst; [apply NE_set_pc; [ne_frame N|auto|discriminate]|apply NE_finish; ne_frame N].
+Qed.
+
+Lemma nm_idle_decide s v cnt : ne_mono s (idle_decide s v cnt).
+Proof. unfold idle_decide. destruct (_ || _); nm_peel. Qed.
+
+Lemma NE_idler_step s v s' : NE s -> idler_step s v = Some s' -> NE s'.
+Proof.
+  intros N H. unfold idler_step in H. destruct (vipc (vc s v)).
+  - destruct (eject (updV s v (fun y => v_sbq y [])) v (sbq (vc s v)) 0) as [s1 cnt] eqn:Ej. inversion H; subst.
+    eapply NE_frame; [|exact N]. eapply nm_trans; [|apply nm_updV].
+    change s1 with (fst (s1, cnt)). rewrite <- Ej. eapply nm_trans; [|apply nm_eject]. apply nm_updV.
+  - destruct (front (slq (vc s v))) as [x|]; [|inversion H; subst; eapply NE_frame; [apply nm_idle_decide|exact N]].
+    destruct (now s <? ts (th s x)); [inversion H; subst; eapply NE_frame; [apply nm_idle_decide|exact N]|].
+    destruct (lk (th s x)); [discriminate|].
+    match type of H with context [tstate_eqb ?a SLEEPING] => destruct (tstate_eqb a SLEEPING) end; inversion H; subst.
+    + eapply NE_frame; [|exact N]. nm_peel.
+    + eapply NE_frame; [apply nm_updV|exact N].
+  - inversion H; subst. eapply NE_frame; [apply nm_updV|exact N].
+Qed.
+
+Lemma NE_vstep s v s' : NE s -> vstep s v = Some s' -> NE s'.
+Proof.
+  intros N H. unfold vstep in H. destruct (pend (vc s v)) as [[w l]|].
+  - destruct (do_unlock s v l) eqn:U; [|discriminate]. inversion H; subst.
+    eapply NE_frame; [eapply nm_trans; [apply nm_set_held|apply nm_updV]|]. eapply NE_do_unlock; eauto.
+  - destruct (runq (vc s v)) as [|[t|] r]; [discriminate| |].
+    + eapply NE_thread_step; eauto.
+    + eapply NE_idler_step; eauto.
+Qed.
+
+Definition interrupt_free (progs : tid -> list op) : Prop := forall k o, In o (progs k) -> ~ intr_op o.
+
+Theorem NE_reachable nv kinds home progs s : interrupt_free progs -> Reach nv kinds home progs s -> NE s.
+Proof.
+  intros Hf. induction 1 as [|s a s' R IH H].
+  - constructor; simpl.
+    + intros t o H. destruct (Nat.ltb t nv); simpl in H; eapply Hf; eauto.
+    + intros t. destruct (Nat.ltb t nv); simpl; auto.
+    + intros t c l n H. destruct (Nat.ltb t nv); simpl in H; discriminate.
+  - destruct a; simpl in H.
+    + eapply NE_vstep; eauto.
+    + inversion H; subst. eapply NE_frame; [apply nm_now|exact IH].
+Qed.
+
+(* cv_wait_result, the remaining half, for interrupt-free programs: a waiter picked by notify_one /
+   notify_all resumes with errno -1, so its wait() returns 0 *)
+Theorem cv_notified_returns_0 nv kinds home progs s t c l n :
+  interrupt_free progs -> Reach nv kinds home progs s ->
+  tpc (th s t) = PWaitSlept c l -> wk (th s t) = WNotified n ->
+  let '(ret, en, _) := take_err s t in translate ret en = (0, 0).
+Proof.
+  intros Hf R P Hw. pose proof (ne_err s (NE_reachable _ _ _ _ _ Hf R) _ _ _ _ P Hw) as He.
+  unfold take_err. rewrite He. simpl. reflexivity.
 Qed.
